@@ -1,6 +1,7 @@
 SPECIFICATION Spec
 CONSTANTS
   Deep = FALSE
+  NRandU = 2
 INVARIANTS
   Inv_WF
   Inv_Algo
